@@ -55,7 +55,7 @@ def library_output_cases(ctx):
     lint-clean.  Concrete side assertions (the real lint, whose verdicts are what the E2 part of this check establishes)."""
     from cgv import families as F
 
-    fam = F.f_shape() + F.reordered(F.f_shape()) + [c for c in F.f_unit(3) if c[0][0] == "pair"][:12] + F.f_bb() + F.f_bb_dotted() + F.f_rand(ctx.seed, 10 if ctx.quick else 60)
+    fam = F.f_shape() + F.reordered(F.f_shape()) + [c for c in F.f_unit(3) if c[0][0] == "pair"][:12] + F.f_bb() + F.f_bb_dotted() + F.f_rand_bb(ctx.seed, 6 if ctx.quick else 40) + F.f_rand(ctx.seed, 10 if ctx.quick else 60)
     return [(("libout",) + cid, ("libout", spec)) for cid, spec in fam]
 
 
